@@ -29,7 +29,7 @@ def pred(name):
     return deco
 
 
-def op(name: str, strategy, quick: int = 40, thorough: int = 1200, inplace: Optional[str] = None, shards=(1, 2),
+def op(name: str, strategy, quick: int = 40, thorough: int = 600, inplace: Optional[str] = None, shards=(1, 2),
        result_of=None):
     """Register cell ``C05/<name>``.  The decorated function maps (ctx, case) to (operands, call)."""
 
